@@ -26,24 +26,25 @@ import (
 
 // World is the harness state of one execution (reachable through vrt.Current().Data).
 type World struct {
-	Srv       *gldap.Server
-	Addr      string
-	LogBuf    *logCapture
-	Started   int // handlers started
-	Finished  int // handlers finished
-	InFlight  int // handlers running
-	PerMsg    map[int64]*HSpec
-	Clients   []*Cl
-	Writes    []WriteRec    // every ResponseWriter.Write performed by harness handlers
-	Dispatch  []DispatchRec // every handler invocation
-	OnClose   []int
-	StopErr   []error
-	RunErr    error
-	RunDone   bool
-	StopDone  int
-	UnbindRan int
-	Notes     map[string]int
-	TLSCfg    *tls.Config // server config used by the StartTLS handler
+	Srv            *gldap.Server
+	Addr           string
+	LogBuf         *logCapture
+	Started        int // handlers started
+	Finished       int // handlers finished
+	InFlight       int // handlers running
+	PerMsg         map[int64]*HSpec
+	Clients        []*Cl
+	Writes         []WriteRec    // every ResponseWriter.Write performed by harness handlers
+	Dispatch       []DispatchRec // every handler invocation
+	OnClose        []int
+	OnCloseStarted int
+	StopErr        []error
+	RunErr         error
+	RunDone        bool
+	StopDone       int
+	UnbindRan      int
+	Notes          map[string]int
+	TLSCfg         *tls.Config // server config used by the StartTLS handler
 }
 
 func W() *World {
@@ -294,6 +295,7 @@ func (w *World) StartServer(o SrvOpts) {
 	opts := []gldap.Option{gldap.WithLogger(logger)}
 	if !o.NoOnClose {
 		opts = append(opts, gldap.WithOnClose(func(id int) {
+			vrt.Atomic(func() { w.OnCloseStarted++ })
 			vrt.Logf("onclose-enter %d", id)
 			for i := 0; i < o.OnCloseYields; i++ {
 				vrt.Yield()
